@@ -57,7 +57,7 @@ def expected_bits(src, width, con, prog):
     if src[0] == "const":
         return [(src[1] >> j) & 1 for j in range(width - 1, -1, -1)]
     if src[0] == "len_dataout":
-        d = con.inst.attrs.get("_dataout")
+        d = con.pub.get("dataout")
         L = norm_int(I.len_of(d, None, None)) if isinstance(d, (Buf, SymBytes, View, bytes)) else None
         b = value_bits(L, width)
         if b is None:
@@ -118,7 +118,7 @@ def check(prog, run):
                               "constructor raises %s for %s" % (p.raised.describe(), con.label()), file, line, key)
                 continue
             inst = con.inst
-            cdb = inst.attrs.get("_cdb") if isinstance(inst, Instance) else None
+            cdb = con.pub.get("cdb") if isinstance(inst, Instance) else None
             want_len = refop.cdb_length(refop.OPCODES[con.opkey]) if con.opkey in refop.OPCODES else None
             if not isinstance(cdb, Buf) or cdb.cells is None:
                 run.violation("cdb-is-bytes", "%s on %s" % (short, con.setname),
@@ -219,7 +219,8 @@ def check_history(prog, run, classes, preds):
                 for (n, d) in entry["args"]:
                     pick = [c for c in domain_choices(n, d) if c[0] == con.labels[n]][0]
                     kw[n] = pick[1]()
-                return I.instantiate(con.cls, [con.opcode], kw, None, _F("after predecessor"))
+                later = I.instantiate(con.cls, [con.opcode], kw, None, _F("after predecessor"))
+                return later, pub_attr(I, later, "cdb")
             for p in I.explore(th, max_paths=64):
                 c = "%s built right after %s" % (short, pkey.split(":")[1])
                 if not p.returned:
@@ -228,7 +229,7 @@ def check_history(prog, run, classes, preds):
                         continue
                     run.violation("cdb-independent-of-previous-command", c, "raises %s" % p.raised.describe(), prog.rel(cls.module), None, key)
                     continue
-                got, want = p.value.attrs.get("_cdb"), con.inst.attrs.get("_cdb")
+                got, want = p.value[1], con.pub.get("cdb")
                 if same_value(got, want):
                     run.ok("cdb-independent-of-previous-command", c)
                 else:
